@@ -20,8 +20,9 @@ def harnesses(world, tier, seed):
                     expected_classes=('ins ins ins prune prune',)))
     else:
         hs = [H(name='prune-history-4ops-full', k=4, nnames=2, qtypes=(1, 255), bounds=dict(common, operations='4, each any of ins|get|prune'), assumptions=A, expected_classes=('ins ins ins prune',), hash_orders=False),
-              H(name='prune-history-5ops', k=5, nnames=2, qtypes=(255,), maxgap=3, ttls=(0, 1, 2, 1000), ops_at=[('ins',), ('ins',), ('ins', 'get'), ('ins', 'prune'), ('prune',)],
-                bounds=dict(common, operations='5: ins ; ins ; ins|get ; ins|prune ; prune', ttl='symbolic over {0,1,2,1000} s', gaps='g symbolic 0..3'), assumptions=A, expected_classes=('ins ins ins ins prune',), hash_orders=False),
+              H(name='prune-history-4ops', k=4, nnames=2, qtypes=(255,), maxgap=2, ttls=(0, 1, 2, 1000), ops_at=[('ins',), ('ins', 'get'), ('ins', 'get', 'prune'), ('prune', 'get')],
+                bounds=dict(common, operations='4: ins ; ins|get ; ins|get|prune ; prune|get', ttl='symbolic over {0,1,2,1000} s', gaps='g symbolic 0..2', hashmap_order='a decision here (the quick tier runs these bounds with insertion order)'), assumptions=A,
+                expected_classes=('ins ins ins prune', 'ins ins prune prune', 'ins get ins prune')),
               H(name='same-type-expiry-order', k=5, nnames=1, datas=(0, 1, 3), qtypes=(255,), maxgap=3, ttls=(1, 2, 3, 1000), ops_at=[('ins',), ('ins',), ('ins',), ('prune',), ('prune',)],
                 bounds=dict(common, operations='5: ins ; ins ; ins ; prune ; prune', names=1, data='three A records of one name', ttl='symbolic over {1,2,3,1000} s', gaps='g symbolic 0..3'), assumptions=A,
                 expected_classes=('ins ins ins prune prune',))]
